@@ -219,6 +219,10 @@ void ConfigObject::RestoreAttribute(const String& attr, bool updateVersion)
 	if (!original_attributes)
 		return;
 
+	/* A top-level attribute that was never modified has no entry: leave it alone instead of assigning null. */
+	if (tokens.size() == 1 && !original_attributes->Contains(attr))
+		return;
+
 	Value oldValue = original_attributes->Get(attr);
 	Value newValue;
 
